@@ -3,7 +3,7 @@ package main
 func init() {
 	register(prop{
 		ID: "C03", Pkg: "c03",
-		Rule:        "rapid draws (direction, link, sequence of 2..15 items: progress / roots-list-changed / log notifications and tool / ping / list / roots / sampling calls, each with a virtual handler duration 0..10s and an optional sender pause); one sending goroutine issues them (calls asynchronously: it only waits, by quiescence, until the call is sent); receiving middleware records start/end on a logical clock + virtual time. Client->server over in-memory, io pipe, SSE, streamable stateful (SSE/JSON/event store) and stateless; server->client over in-memory, pipe, SSE and the streamable standalone stream. A raw-peer variant sends messages right behind a slow initialize. TestC03_Multi connects one client to 1..3 servers and interleaves fan-out notifications (AddRoots) with messages on individual sessions, optionally with a delaying client sending middleware. Non-trivial = a notification with duration > 0 followed by another message; distinct by (dir, link, kind/duration-class sequence). Class calls_overlapped shows the harness itself does not serialise calls. TestC03_Batch: a raw peer on the newline-delimited transport groups 1-12 notifications and calls per line into JSON-RPC batches (SDK server as receiver at 2025-03-26 / 2024-11-05, SDK client as receiver); the members of a batch count as sent in array order, so a notification's handler has finished before the handler of any member or line behind it starts.",
+		Rule:        "rapid draws (direction, link, sequence of 2..15 items: progress / roots-list-changed / log notifications and tool / ping / list / roots / sampling calls, each with a virtual handler duration 0..10s and an optional sender pause); one sending goroutine issues them (calls asynchronously: it only waits, by quiescence, until the call is sent); receiving middleware records start/end on a logical clock + virtual time. Client->server over in-memory, io pipe, SSE, streamable stateful (SSE/JSON/event store) and stateless; server->client over in-memory, pipe, SSE and the streamable standalone stream. A raw-peer variant sends messages right behind a slow initialize. TestC03_Multi connects one client to 1..3 servers and interleaves fan-out notifications (AddRoots) with messages on individual sessions, optionally with a delaying client sending middleware. Non-trivial = a notification with duration > 0 followed by another message; distinct by (dir, link, kind/duration-class sequence). Class calls_overlapped shows the harness itself does not serialise calls. TestC03_Batch: a raw peer on the newline-delimited transport groups 1-12 notifications and calls per line into JSON-RPC batches (SDK server as receiver at 2025-03-26 / 2024-11-05, SDK client as receiver); the members of a batch count as sent in array order, so a notification's handler has finished before the handler of any member or line behind it starts. TestC03_Senders: 2-3 goroutines of one server notify the same client at overlapping times (resources/updated for two URIs, log messages, progress) over an in-memory link whose chosen writes take 1 ms-3 s; per goroutine, what it sends after a notifying method returned is observed after that notification (for resources/updated: after one for that URI that arrived once the call had started).",
 		Assumptions: []string{"virtual time (testing/synctest); real Client and Server over in-memory links", "server->client on streamable HTTP only for messages issued outside a request (all routed to the standalone stream)", "teardown leftovers are only counted here (C05 judges them)"},
 		LevelText:   "Generated send sequences with virtual handler durations; oracle = for every notification n (and initialize) and every message m sent after n's API call returned, end(n) precedes start(m) on the receiving side's logical clock.",
 		LevelNote:   "Trusts the recording middleware (installed first, so it brackets the whole handler) and synctest quiescence as the definition of 'the call has been sent'.",
@@ -14,6 +14,7 @@ func init() {
 			{Test: "TestC03_Init", Quick: 300, Thorough: 24000, Shards: 4},
 			{Test: "TestC03_Multi", Quick: 500, Thorough: 40000, Shards: 8},
 			{Test: "TestC03_Batch", Quick: 1500, Thorough: 100000, Shards: 4},
+			{Test: "TestC03_Senders", Quick: 1500, Thorough: 100000, Shards: 4},
 		},
 	})
 }
